@@ -23,7 +23,8 @@ def describe(tier):
                 "present iff the result is unfulfilled; through evaluate_format_constraint_tree (messages supplied) and through "
                 "format_constraint_evaluation with a harness FcEvaluator whose evaluate methods return no message (default-message path), "
                 "sync and async evaluation methods, and (3 keys, all 8 assignments, 3 expressions) under ALL completion orders of "
-                "suspending evaluate_<key> coroutines on the virtual event loop; None and '' count as fulfilled. Non-trivial = (expression, assignment) pairs with >= 2 "
+                "suspending evaluate_<key> coroutines on the virtual event loop; None and '' count as fulfilled; expressions with <= 3 leaves also through the library's DictBased / "
+                "ContentEvaluationResultBased format constraint evaluators and user-style method based evaluators. Non-trivial = (expression, assignment) pairs with >= 2 "
                 "operators.",
         "bounds": {"leaves": BOUNDS[tier]},
         "exhaustive": True,
@@ -33,6 +34,9 @@ def describe(tier):
 
 def plan(tier, seed):
     items = [{"fam": "empty", "seed": seed}]
+    for mode in ("hardcoded", "cer", "methods"):
+        for n in (1, 2, 3):
+            items.append({"fam": "modes", "mode": mode, "n": n, "seed": seed})
     # completion orders of suspending evaluate_<key> methods (virtual event loop): "under the evaluated single constraints"
     for e in range(len(ORDER_EXPRS)):
         for bits in range(8):
@@ -102,6 +106,35 @@ def check_expr(expr, only=None):
     return out, n
 
 
+def check_expr_mode(expr, mode, only=None):
+    """format_constraint_evaluation through the library's shipped evaluators / user-style method based evaluators"""
+    from mc import impl_modes as M
+
+    I = X.init()
+    out = []
+    tt = X.parse(expr)[2]
+    keys = R3.keys_of(tt)
+    n = 0
+    for vals in itertools.product((True, False), repeat=len(keys)):
+        val = dict(zip(keys, vals))
+        if only is not None and val != only:
+            continue
+        n += 1
+        exp = _bool(tt, val)
+        case = {"expr": expr, "fc": val, "mode": mode}
+        r = I.try_call(lambda: M.run(mode, lambda: I.format_constraint_evaluation(expr),
+                                     fc={k: (v, None if v else f"msg {k}") for k, v in val.items()}))
+        if r[0] == "exc":
+            out.append({"kind": "raised/" + mode, "case": case, "expected": exp, "observed": r[1], "msg": expr})
+        elif r[1].format_constraints_fulfilled is not exp:
+            out.append({"kind": "boolean-value/" + mode, "case": case, "expected": exp, "observed": r[1].format_constraints_fulfilled,
+                        "msg": f"{expr} under {val} through the {mode} evaluators"})
+        elif (r[1].error_message is not None) != (not exp):
+            out.append({"kind": "message-iff-unfulfilled/" + mode, "case": case, "expected": "message" if not exp else "no message",
+                        "observed": r[1].error_message, "msg": f"{expr} under {val} through the {mode} evaluators"})
+    return out, n
+
+
 async def _no_yield(kind, key):
     return None
 
@@ -123,6 +156,25 @@ def run_item(item):
         return r
     if item["fam"] == "orders":
         return _run_orders(item, r)
+    if item["fam"] == "modes":
+        from mc import impl_modes as M
+
+        pools = X.pools(item["seed"])
+        try:
+            for ast in A.asts(item["n"], "all", pools={"fc": pools["fc"][:5], "rc": [], "hint": []}, classes=("fc",), ops=("and", "or", "xor")):
+                expr = X.render(ast, item["seed"])
+                vs, n = check_expr_mode(expr, item["mode"])
+                r.evaluations += n
+                r.states += n
+                r.transitions += n
+                r.traces += 1
+                r.nontrivial += n if item["n"] >= 2 else 0
+                for v in vs:
+                    r.violation(v["kind"], v["case"], v["expected"], v["observed"], v["msg"])
+                r.sample({"expr": expr, "mode": item["mode"]})
+        finally:
+            M.restore()
+        return r
     pools = X.pools(item["seed"])
     i = -1
     for ast in A.asts(item["n"], "all", pools={"fc": pools["fc"][:5], "rc": [], "hint": []}, classes=("fc",),
@@ -196,6 +248,13 @@ def replay(case):
         vloop, factory, observe, want, expr, val = _orders_setup(case["orders"])
         out = observe(vloop.run_schedule(factory, case["choices"]))
         return [] if out == want else [{"kind": "boolean-value/completion-order", "case": case, "expected": want, "observed": out}]
+    if case.get("mode"):
+        from mc import impl_modes as M
+
+        try:
+            return check_expr_mode(case["expr"], case["mode"], case.get("fc"))[0]
+        finally:
+            M.restore()
     if case.get("empty"):
         return run_item({"fam": "empty", "seed": 0}).violations
     return check_expr(case["expr"], case.get("fc"))[0]
